@@ -5,10 +5,14 @@ tables), (b) a small crate that reads real objects as raw words (dynamic layout)
     render_layout.py <layout.jsonl> <out_dir>"""
 import json, os, sys
 
-BODY = {"n1": 71, "vo_a": 72, "n2": 73, "sk_b": 74, "n3": 75, "vo_c": 76, "n4": 77, "zz": 11, "aa": 12, "mm": 13, "b1": 21, "a2": 22, "only": 31, "q": 41, "p": 42, "r": 43, "o": 44, "s": 45, "tb1": 51, "ta2": 61, "ta1": 62}
+BODY = {"n1": 71, "vo_a": 72, "n2": 73, "sk_b": 74, "n3": 75, "vo_c": 76, "n4": 77, "zz": 11, "aa": 12, "mm": 13, "b1": 21, "a2": 22, "only": 31, "q": 41, "p": 42, "r": 43, "o": 44, "s": 45, "tb1": 51, "ta2": 61, "ta1": 62,
+        "open": 81, "close": 82, "ident": 83, "reset": 84, "b1x": 91, "b2x": 92, "b3x": 93, "b4x": 94, "b5x": 95}
 
 
 def method_decl(m):
+    if m.startswith("ty_"):
+        # an associated type declared at this position of the trait body (not a vtable slot)
+        return "        type %s;" % m.title().replace("_", "")
     if m.startswith("vo_"):
         return "        #[vtbl_only]\n        fn %s(&self) -> u64 { 0 }" % m
     if m.startswith("sk_"):
@@ -22,7 +26,7 @@ def trait_src(name, methods):
 
 
 def impl_src(ty, name, methods):
-    ms = "\n".join("    fn %s(&self) -> u64 { %d }" % (m, BODY[m]) for m in methods)
+    ms = "\n".join(("    type %s = u64;" % m.title().replace("_", "")) if m.startswith("ty_") else "    fn %s(&self) -> u64 { %d }" % (m, BODY[m]) for m in methods)
     return "impl %s for %s {\n%s\n}\n" % (name, ty, ms)
 
 
@@ -70,7 +74,7 @@ def main():
         let got: Vec<usize> = (0..expect.len()).map(|i| unsafe { *words.add(i) }).collect();
         report(&mut out, "vtable:%s", got == expect && distinct(&expect), format!("{:?} vs {:?}", got, expect));
         // opaque and concrete form: same size, alignment and bits
-        let base = %sBaseBox::<L>::from(L { tag: 9 });
+        let base = %sBaseBox::<L%s>::from(L { tag: 9 });
         let b0: [usize; 8] = raw8(&base);
         let sz0 = (std::mem::size_of_val(&base), std::mem::align_of_val(&base));
         let opq = base.into_opaque();
@@ -79,7 +83,7 @@ def main():
         let n = sz0.0 / 8;
         report(&mut out, "bits:%s", sz0 == sz1 && b0[..n.min(8)] == b1[..n.min(8)], format!("{:?} {:?}", sz0, sz1));
     }
-""" % (t, getters, t, t, t))
+""" % (t, getters, t, t, ", u64" * len([m for m in decls[t] if m.startswith("ty_")]), t))
     for k, g in enumerate(groups):
         lay = g["layout"]
         keys = lay["mandatory"] + lay["optional"]
